@@ -514,6 +514,10 @@ var bindValues = []bindValue{
 	{"string", func() any { return "str" }},
 	{"float", func() any { return 2.5 }},
 	{"bool", func() any { return true }},
+	{"complex", func() any { return complex(1, 2) }},
+	{"bytes", func() any { return []byte("hi") }},
+	{"negint", func() any { return -1 }},
+	{"shortslice", func() any { return []int{1, 2} }},
 	{"chan", func() any { return make(chan int) }},
 	{"func", func() any { return func() {} }},
 	{"mapchan", func() any { return map[string]any{"c": make(chan int)} }},
@@ -535,10 +539,87 @@ var bindOtherDests = []func() any{
 	func() any { var i int; return &i },
 	func() any { return &[]int{} },
 	func() any { var s string; return &s },
+	func() any { var u uint8; return &u },
+	func() any { return &[4]int{} },
+	func() any { var f float32; return &f },
 	// pre-filled destinations: json.Unmarshal decodes INTO the destination, fields absent from the JSON survive
 	func() any { return &tagged{ID: 77, Name: "keep"} },
 	func() any { return &map[string]any{"keep": true} },
 	func() any { return &untagged{ID: 9, Name: "keep", Tags: []string{"x", "y"}} },
+}
+
+// runBindAlias: the store holds a reference (map, slice, pointer); the caller binds it, changes the referenced value in
+// place without any store write, and binds again - into the same and into another destination type, through the store
+// and through a Result made from the stored value.
+func runBindAlias(bv bindValue, destIdx int, carrier string) (ev Event, applicable bool) {
+	v := bv.mk()
+	mutate := func() bool {
+		switch x := v.(type) {
+		case map[string]any:
+			if x == nil {
+				return false
+			}
+			x["id"] = 99
+			x["added"] = []any{"later"}
+		case *tagged:
+			if x == nil {
+				return false
+			}
+			x.ID, x.Name = 99, "changed"
+		case []int:
+			if len(x) == 0 {
+				return false
+			}
+			x[0] = 99
+		case []any:
+			if len(x) == 0 {
+				return false
+			}
+			x[0] = "changed"
+		default:
+			return false
+		}
+		return true
+	}
+	mk := bindOtherDests[destIdx%len(bindOtherDests)]
+	if reflect.TypeOf(mk()).Elem() == reflect.TypeOf(v) {
+		mk = bindOtherDests[(destIdx+1)%len(bindOtherDests)]
+	}
+	ev = Event{"ev": "bindalias", "val": bv.name, "carrier": carrier, "panicked": false, "iserr": false, "referr": false, "desteq": false}
+	s := flyt.NewSharedStore()
+	s.Set("k", v)
+	func() {
+		defer func() {
+			if recover() != nil {
+				ev["panicked"] = true
+			}
+		}()
+		_ = s.Bind("k", mk()) // first bind: whatever the store remembers about this key, it remembers now
+		cur, _ := s.Get("k")
+		_ = flyt.NewResult(cur).Bind(mk())
+		if !mutate() {
+			return
+		}
+		applicable = true
+		dest, refDest := mk(), mk()
+		var err error
+		if carrier == "store" {
+			err = s.Bind("k", dest)
+		} else {
+			cur, _ := s.Get("k")
+			err = flyt.NewResult(cur).Bind(dest)
+		}
+		var refErr error
+		b, merr := json.Marshal(v)
+		if merr != nil {
+			refErr = merr
+		} else {
+			refErr = json.Unmarshal(b, refDest)
+		}
+		ev["iserr"], ev["referr"] = err != nil, refErr != nil
+		ev["desteq"] = reflect.DeepEqual(reflect.ValueOf(dest).Elem().Interface(), reflect.ValueOf(refDest).Elem().Interface())
+	}()
+	return ev, applicable || ev["panicked"] == true
 }
 
 func deepCopyCheck(a, b any) bool {
@@ -699,6 +780,11 @@ func (p *cfgProbe) mark(phase string, id int) {
 }
 
 func runConfigScenario(kind string, steps []cfgStep) []Event {
+	return runConfigScenarioOpt(kind, steps, false)
+}
+
+// second: the options are kept in ONE slice from which two nodes are constructed (NewNode(list...)); the second is probed
+func runConfigScenarioOpt(kind string, steps []cfgStep, second bool) []Event {
 	var evs []Event
 	for _, s := range steps {
 		sty := s.Sty
@@ -709,10 +795,34 @@ func runConfigScenario(kind string, steps []cfgStep) []Event {
 	}
 	p := &cfgProbe{called: map[string]int{}, barrier: make(chan struct{})}
 	var boom = errors.New("probe failure")
+	// settings the node's own prep callback applies to the node while it runs (form "inprep"): the last settings of all
+	var lateBase *flyt.BaseNode
+	var inprep []cfgStep
+	for _, s := range steps {
+		if s.Form == "inprep" {
+			inprep = append(inprep, s)
+		}
+	}
+	applyInPrep := func() {
+		for _, s := range inprep {
+			if lateBase == nil {
+				return
+			}
+			switch s.Param {
+			case "retries":
+				flyt.WithMaxRetries(s.Val)(lateBase)
+			case "conc":
+				flyt.WithBatchConcurrency(s.Val)(lateBase)
+			case "mode":
+				flyt.WithBatchErrorHandling(s.Val == 0)(lateBase)
+			}
+		}
+	}
 
 	prepFn := func(id int) func(context.Context, *flyt.SharedStore) (flyt.Result, error) {
 		return func(ctx context.Context, s *flyt.SharedStore) (flyt.Result, error) {
 			p.mark("prep", id)
+			applyInPrep()
 			return flyt.NewResult("prep"), nil
 		}
 	}
@@ -772,7 +882,11 @@ func runConfigScenario(kind string, steps []cfgStep) []Event {
 		}
 	}
 	prepFnA := func(id int) func(context.Context, *flyt.SharedStore) (any, error) {
-		return func(ctx context.Context, s *flyt.SharedStore) (any, error) { p.mark("prep", id); return "prep", nil }
+		return func(ctx context.Context, s *flyt.SharedStore) (any, error) {
+			p.mark("prep", id)
+			applyInPrep()
+			return "prep", nil
+		}
 	}
 	execFnA := func(id int) func(context.Context, any) (any, error) {
 		inner := execFn(id)
@@ -793,6 +907,7 @@ func runConfigScenario(kind string, steps []cfgStep) []Event {
 	bprepFn := func(id int) func(context.Context, *flyt.SharedStore) ([]flyt.Result, error) {
 		return func(ctx context.Context, s *flyt.SharedStore) ([]flyt.Result, error) {
 			p.mark("prep", id)
+			applyInPrep()
 			items := make([]flyt.Result, 6)
 			for i := range items {
 				items[i] = flyt.NewResult(i + 1)
@@ -866,6 +981,9 @@ func runConfigScenario(kind string, steps []cfgStep) []Event {
 			}
 		}
 		if kind == "node" {
+			if second {
+				_ = flyt.NewNode(opts...) // the first node made from this list
+			}
 			b := flyt.NewNode(opts...)
 			base = b.BaseNode
 			for _, s := range steps {
@@ -909,6 +1027,9 @@ func runConfigScenario(kind string, steps []cfgStep) []Event {
 			probe["retries"], probe["wait"] = b.GetMaxRetries(), int(b.GetWait()/time.Millisecond)
 			probe["conc"] = b.GetBatchConcurrency()
 		} else {
+			if second {
+				_ = flyt.NewBatchNode(opts...)
+			}
 			b := flyt.NewBatchNode(opts...)
 			base = b.BaseNode
 			for _, s := range steps {
@@ -945,6 +1066,7 @@ func runConfigScenario(kind string, steps []cfgStep) []Event {
 		if base.GetBatchErrorHandling() == "stop" {
 			probe["mode"] = 1
 		}
+		lateBase = base
 		// probe run A: exec always fails -> attempts made, fallback
 		p.failExec = true
 		flyt.Run(context.Background(), node, flyt.NewSharedStore())
@@ -1130,6 +1252,11 @@ func init() {
 			}
 			for di := range bindOtherDests {
 				evs = append(evs, runBindAgree(bv, di))
+				for _, carrier := range []string{"store", "result"} {
+					if ev, ok := runBindAlias(bv, di, carrier); ok {
+						evs = append(evs, ev)
+					}
+				}
 			}
 			// missing key, nil values
 			evs = append(evs, runBind("store", false, false, "ptrother", bv, vi))
@@ -1235,7 +1362,20 @@ func init() {
 					later = append(later, s)
 				}
 			}
-			run(kind, append(optSteps, later...), "gen")
+			all := append(optSteps, later...)
+			run(kind, all, "gen")
+			if len(optSteps) > 0 {
+				// the same, with the options kept in one slice from which two nodes are made (the second is probed)
+				id++
+				o.WriteScenario(id, "config", "gen:second", map[string]any{"kind": kind}, nil, runConfigScenarioOpt(kind, all, true))
+			}
+			if r.Intn(2) == 0 {
+				// ... and with a setting that the node's own prep applies while the node runs
+				prm := []string{"retries", "conc", "mode"}[r.Intn(3)]
+				val := map[string][]int{"retries": {1, 2, 3}, "conc": {0, 2}, "mode": {0, 1}}[prm]
+				withPrep := append(append([]cfgStep{}, all...), cfgStep{prm, "inprep", val[r.Intn(len(val))], "r"})
+				run(kind, withPrep, "gen:inprep")
+			}
 		}
 	}
 }
